@@ -42,6 +42,12 @@ size_t verif_c17_gk; int verif_c17_gk_ok;   /* ghost signature index and the har
 size_t verif_c17_gb; unsigned char verif_c17_gb_exp; /* ghost byte index into the output aggregate and the expected byte there; never assigned */
 uint64_t verif_c17_wpos; unsigned char verif_c17_wexp; /* watched position of the running hash stream and the expected byte there; never assigned */
 int verif_c17_whit;               /* sticky: the watched position has been written */
+#ifndef VERIF_NATIVE
+/* harness-computed values for the ghost signature index verif_c17_gk (aggverify: index into the aggregate; inc_aggregate:
+ * index into the NEW signatures): r_gk, stored x/y of pk_gk, s_gk.  Contracts compare against these only when the
+ * signature being processed IS number gk, so no contract reads the caller's big arrays; gk is arbitrary. never assigned */
+wide c17_exp_r, c17_exp_px, c17_exp_py, c17_exp_s;
+#endif
 /* logs that live within one iteration / after the loops */
 int c17_last_inf, c17_phase, c17_init_n; secp256k1_scalar c17_e; unsigned char c17_dig[32]; secp256k1_gej c17_em_r;
 
@@ -49,15 +55,9 @@ int c17_last_inf, c17_phase, c17_init_n; secp256k1_scalar c17_e; unsigned char c
 static inline wide c17_le256(const unsigned char *b) { wide v = 0; int i; for (i = 31; i >= 0; i--) v = (v << 8) | W(b[i]); return v; }
 static inline wide c17_redn(wide v) { wide n = N_(); return v >= n ? v - n : v; }
 #define C17_K (verif_c17_fin_n - 1)   /* index (relative to the first new signature) of the signature being processed, valid after the finalize of the iteration */
-#define C17_XO_OK(x, odd) ((odd) == 0 && verif_c17_fin_n >= 1 && C17_K < c17_n && fe_canon(x) && fval(x) == be256(c17_aggsig + 32 * C17_K))
+#define C17_XO_OK(x, odd) ((odd) == 0 && verif_c17_fin_n >= 1 && C17_K < c17_n && fe_canon(x) && (C17_K != verif_c17_gk || fval(x) == c17_exp_r))
 #define C17_CH_OK(r32, msg, msglen, pk32) (verif_c17_fin_n >= 1 && C17_K < c17_n && (r32) == c17_aggsig + 32 * C17_K && (msg) == c17_msgs + 32 * C17_K && (msglen) == 32 && \
-    be256(pk32) == c17_le256(c17_pks[C17_K].data))
-#ifdef C17_EXP_LIGHT   /* experiment only */
-#undef C17_XO_OK
-#undef C17_CH_OK
-#define C17_XO_OK(x, odd) 1
-#define C17_CH_OK(a,b,c,d) 1
-#endif
+    (C17_K != verif_c17_gk || be256(pk32) == c17_exp_px))
 #define C17_UPD(flag, cond) (flag == ((__CPROVER_old(flag) != 0 || (cond)) ? 1 : 0))
 #define C17_COVERS (__CPROVER_old(hash->bytes) <= verif_c17_wpos && verif_c17_wpos < __CPROVER_old(hash->bytes) + len)
 #define C17_EXP_END (c17_mode == 0 ? 64 + 96 * ((uint64_t)__CPROVER_old(verif_c17_fin_n) + 1) : 64 + 96 * ((uint64_t)c17_nb + (uint64_t)__CPROVER_old(verif_c17_fin_n) + 1))
@@ -103,7 +103,7 @@ __CPROVER_ensures(C17_UPD(verif_c17_bad, !C17_CH_OK(r32, msg, msglen, pubkey32))
 ;
 /* two calls per signature: phase 1 (after challenge): e_i * P_i;  phase 2 (after R_i + e_i P_i): z_i * T_i, skipped for i = 0 */
 #define C17_EM1_OK (na != NULL && ng == NULL && SC_EQ(*na, c17_e) && C17_K < c17_n && a->infinity == 0 && fval(&a->z) == 1 && \
-    fval(&a->x) == c17_le256(c17_pks[C17_K].data) && fval(&a->y) == c17_le256(c17_pks[C17_K].data + 32))
+    (C17_K != verif_c17_gk || (fval(&a->x) == c17_exp_px && fval(&a->y) == c17_exp_py)))
 #define C17_EM2_OK (na != NULL && ng == NULL && C17_K != 0 && sval(na) == c17_redn(be256(c17_dig)))
 #define C17_SVAL_OLD(a) (W(__CPROVER_old((a)->d[0])) | (W(__CPROVER_old((a)->d[1])) << 64) | (W(__CPROVER_old((a)->d[2])) << 128) | (W(__CPROVER_old((a)->d[3])) << 192))
 static void secp256k1_ecmult(secp256k1_gej *r, const secp256k1_gej *a, const secp256k1_scalar *na, const secp256k1_scalar *ng)
@@ -129,7 +129,7 @@ __CPROVER_ensures(gej_ok(r) && c17_last_inf == r->infinity && c17_phase == 0)
 __CPROVER_ensures(C17_UPD(verif_c17_bad, g_gen_n == 0 && !((__CPROVER_old(c17_phase) == 3 && C17_K == 0) || (__CPROVER_old(c17_phase) == 4 && C17_K != 0))))
 ;
 /* inc_aggregate: s_i * z_i for i != 0 */
-#define C17_MUL_OK (verif_c17_fin_n >= 1 && c17_nb + C17_K != 0 && C17_K < c17_n && sval(b) == c17_redn(be256(c17_dig)) && C17_SVAL_OLD(a) == c17_redn(be256(c17_sigs + 64 * C17_K + 32)))
+#define C17_MUL_OK (verif_c17_fin_n >= 1 && c17_nb + C17_K != 0 && C17_K < c17_n && sval(b) == c17_redn(be256(c17_dig)) && (C17_K != verif_c17_gk || C17_SVAL_OLD(a) == c17_redn(c17_exp_s)))
 static void secp256k1_scalar_mul(secp256k1_scalar *r, const secp256k1_scalar *a, const secp256k1_scalar *b)
 __CPROVER_requires(__CPROVER_w_ok(r, sizeof(*r)) && __CPROVER_r_ok(a, sizeof(*a)) && __CPROVER_r_ok(b, sizeof(*b)))
 __CPROVER_requires(scalar_ok(a) && scalar_ok(b))
